@@ -361,7 +361,7 @@ func (h *Hist) block(codes map[string]int) {
 	if !h.silent {
 		// lookups by chain (GetValidatorsByChain: prefix scan of 0x22) on the end-of-block state
 		ctx := ctxAt(n, height, bt)
-		for _, ch := range []string{"0001", "0021", "00"} {
+		for _, ch := range h.lookupChains() {
 			as, _ := n.App.VerifNodesKeeper().GetValidatorsByChain(ctx, ch)
 			var xs []string
 			for _, a := range as {
